@@ -5,7 +5,16 @@ Property theorems only (helpers are private).  Models: Rc/Model/Select.lean
 (generic in item type and comparison), Rc/Model/PathSel.lean (the route order).
 Everything is proved for EVERY list, by induction, for ANY comparison that is a
 strict weak order respecting content; the instance for `OrdRoute<SkipMed>` comes
-from Thm/C10 `skipMed_weak_order`.
+from Thm/C10 `skipMed_weak_order` (`skipMed_statement`: the statement with no
+hypothesis).
+
+The property text does not restrict the strategy.  For `OrdRoute<Rfc4271>` the
+statement is FALSE (`rfc4271_statement_fails`, known finding K11: the MED step
+is not transitive, a preference cycle has no minimum).  Proved for it instead:
+`rfc4271_unconditional` (the clauses that need no transitivity, on every
+collection) and `rfc4271_best_backup_partial` (the whole statement on every
+collection whose candidates are weakly ordered).  Order independence of the
+backup and `generic_two_smallest` are NOT proved for Rfc4271.
 -/
 import Rc.Model.Select
 import Rc.Model.PathSel
@@ -197,7 +206,11 @@ theorem backup_spec {cmp : α → α → Ordering} {content : α → κ} (hw : W
   unfold Spec at h
   rw [hk] at h; exact h.2.2
 
-private theorem step_best (cmp : α → α → Ordering) (content : α → κ) (hw : WeakOrd cmp) (st : St α) (c : α) :
+private theorem antisym_gt_iff {cmp : α → α → Ordering} (h : Antisym cmp) {a b : α} :
+    cmp a b = .gt ↔ cmp b a = .lt := by
+  rw [h a b]; cases cmp a b <;> simp [Ordering.swap]
+
+private theorem step_best (cmp : α → α → Ordering) (content : α → κ) (hw : Antisym cmp) (st : St α) (c : α) :
     (step cmp content st c).best = some (match st.best with | none => c | some b => minBy cmp b c) := by
   obtain ⟨best, backup⟩ := st
   cases best with
@@ -205,15 +218,15 @@ private theorem step_best (cmp : α → α → Ordering) (content : α → κ) (
   | some b =>
     simp only [step, minBy]
     by_cases hcb : cmp c b = .lt
-    · have : cmp b c = .gt := hw.gt_iff.2 hcb
+    · have : cmp b c = .gt := (antisym_gt_iff hw).2 hcb
       simp [hcb, this]
-    · have : cmp b c ≠ .gt := fun e => hcb (hw.gt_iff.1 e)
+    · have : cmp b c ≠ .gt := fun e => hcb ((antisym_gt_iff hw).1 e)
       simp only [hcb, if_false]
       cases backup with
       | none => cases hbc : cmp b c <;> simp_all <;> split <;> rfl
       | some k => cases hbc : cmp b c <;> simp_all <;> (repeat' split) <;> rfl
 
-private theorem foldl_best (cmp : α → α → Ordering) (content : α → κ) (hw : WeakOrd cmp) (l : List α) :
+private theorem foldl_best (cmp : α → α → Ordering) (content : α → κ) (hw : Antisym cmp) (l : List α) :
     ∀ (st : St α) (b : α), st.best = some b →
       (l.foldl (step cmp content) st).best = some (l.foldl (minBy cmp) b) := by
   induction l with
@@ -225,8 +238,10 @@ private theorem foldl_best (cmp : α → α → Ordering) (content : α → κ) 
     rw [step_best cmp content hw, h]
 
 /-- Clause "... and it is the route the single-best helper returns":
-`best_backup`'s best is `best()`'s result (the FIRST minimum), for every list. -/
-theorem best_eq_single_best {cmp : α → α → Ordering} {content : α → κ} (hw : WeakOrd cmp) (l : List α) :
+`best_backup`'s best is `best()`'s result (the FIRST minimum), for every list and
+every ANTISYMMETRIC comparison: no transitivity is needed, so this clause holds
+for `OrdRoute<Rfc4271>` too (`rfc4271_unconditional`). -/
+theorem best_eq_single_best {cmp : α → α → Ordering} {content : α → κ} (hw : Antisym cmp) (l : List α) :
     (run cmp content l).best = best cmp l := by
   cases l with
   | nil => rfl
@@ -317,13 +332,130 @@ theorem backup_class_perm_invariant {cmp : α → α → Ordering} {content : α
     | some b' =>
       exact spec_class_perm_invariant hw hc hp (best_backup_spec hw hc l hb) (best_backup_spec hw hc l' hb')
 
+/-! ## the clauses that need no transitivity (any comparison respecting content) -/
+
+/-- The part of the statement that speaks about content only: the best and the
+backup are candidates, the backup is absent exactly when every candidate has
+the content of the best, otherwise its content differs from the best's. -/
+def ContentSpec (content : α → κ) (l : List α) (b : α) (k : Option α) : Prop :=
+  b ∈ l ∧
+    match k with
+    | none => ∀ c ∈ l, content c = content b
+    | some k => k ∈ l ∧ content k ≠ content b
+
+private def CInv (content : α → κ) (l : List α) (st : St α) : Prop :=
+  match st.best with
+  | none => l = [] ∧ st.backup = none
+  | some b => ContentSpec content l b st.backup
+
+private theorem step_cinv {cmp : α → α → Ordering} {content : α → κ}
+    (hc : RespectsContent cmp content) {l : List α} {st : St α} (c : α)
+    (h : CInv content l st) : CInv content (l ++ [c]) (step cmp content st c) := by
+  obtain ⟨best, backup⟩ := st
+  cases best with
+  | none =>
+    obtain ⟨hl, hb⟩ := h
+    simp only at hl hb
+    subst hl hb
+    simp only [step, CInv, ContentSpec, List.nil_append, List.mem_singleton]
+    exact ⟨trivial, fun x hx => by subst hx; rfl⟩
+  | some b =>
+    obtain ⟨hbl, hk⟩ := h
+    simp only [step]
+    by_cases hcb : cmp c b = .lt
+    · simp only [hcb, if_true, CInv, ContentSpec, List.mem_append, List.mem_singleton]
+      refine ⟨.inr trivial, .inl hbl, ?_⟩
+      intro e
+      have := hc c b e.symm
+      rw [this] at hcb; cases hcb
+    · simp only [hcb, if_false]
+      have hb' : b ∈ l ++ [c] := List.mem_append.2 (.inl hbl)
+      have hc' : c ∈ l ++ [c] := List.mem_append.2 (.inr (List.mem_singleton.2 rfl))
+      cases backup with
+      | none =>
+        simp only at hk
+        by_cases hcc : content b = content c
+        · dsimp only
+          rw [if_neg (fun hne => hne hcc)]
+          refine ⟨hb', ?_⟩
+          intro x hx
+          rcases List.mem_append.1 hx with hx | hx
+          · exact hk x hx
+          · rw [List.mem_singleton] at hx; subst hx; exact hcc.symm
+        · dsimp only
+          rw [if_pos hcc]
+          exact ⟨hb', hc', fun e => hcc e.symm⟩
+      | some k =>
+        obtain ⟨hkl, hkb⟩ := hk
+        have hk' : k ∈ l ++ [c] := List.mem_append.2 (.inl hkl)
+        by_cases hck : cmp c k = .lt
+        · by_cases hcc : content b = content c
+          · dsimp only
+            rw [if_pos hck, if_neg (fun hne => hne hcc)]
+            exact ⟨hb', hk', hkb⟩
+          · dsimp only
+            rw [if_pos hck, if_pos hcc]
+            exact ⟨hb', hc', fun e => hcc e.symm⟩
+        · dsimp only
+          rw [if_neg hck]
+          exact ⟨hb', hk', hkb⟩
+
+private theorem foldl_cinv {cmp : α → α → Ordering} {content : α → κ}
+    (hc : RespectsContent cmp content) (l : List α) :
+    ∀ (pre : List α) (st : St α), CInv content pre st →
+      CInv content (pre ++ l) (l.foldl (step cmp content) st) := by
+  induction l with
+  | nil => intro pre st h; simpa using h
+  | cons c t ih =>
+    intro pre st h
+    have := ih (pre ++ [c]) _ (step_cinv hc c h)
+    simpa [List.append_assoc] using this
+
+private theorem run_cinv {cmp : α → α → Ordering} {content : α → κ}
+    (hc : RespectsContent cmp content) (l : List α) : CInv content l (run cmp content l) := by
+  have := foldl_cinv hc l [] ⟨none, none⟩ ⟨rfl, rfl⟩
+  simpa [run] using this
+
+/-- Nothing is selected only from an empty collection – for ANY comparison. -/
+theorem best_none_iff_any {cmp : α → α → Ordering} {content : α → κ}
+    (hc : RespectsContent cmp content) (l : List α) : (run cmp content l).best = none ↔ l = [] := by
+  have h := run_cinv hc l
+  unfold CInv at h
+  constructor
+  · intro e; rw [e] at h; exact h.1
+  · intro e; subst e; rfl
+
+/-- Clauses "the backup is absent exactly when every candidate has the same
+content as the best; otherwise it is a candidate whose content differs from the
+best" hold for EVERY comparison under which equal content is equal preference –
+transitive or not (so for `OrdRoute<Rfc4271>` too). -/
+theorem content_clauses {cmp : α → α → Ordering} {content : α → κ}
+    (hc : RespectsContent cmp content) (l : List α) {b : α} (hb : (run cmp content l).best = some b) :
+    ContentSpec content l b (run cmp content l).backup := by
+  have h := run_cinv hc l
+  unfold CInv at h
+  rw [hb] at h; exact h
+
+/-- ... spelled out: no backup iff all contents equal the best's. -/
+theorem backup_none_iff_any {cmp : α → α → Ordering} {content : α → κ}
+    (hc : RespectsContent cmp content) (l : List α) {b : α} (hb : (run cmp content l).best = some b) :
+    (run cmp content l).backup = none ↔ ∀ c ∈ l, content c = content b := by
+  have h := content_clauses hc l hb
+  unfold ContentSpec at h
+  cases hk : (run cmp content l).backup with
+  | none => rw [hk] at h; simpa using h.2
+  | some k =>
+    rw [hk] at h
+    simp only [reduceCtorEq, false_iff]
+    intro hall; exact h.2.2 (hall k h.2.1)
+
 /-! ## `best_backup` / `best_backup_position` (the enumerated fold) -/
 
 private def stMap {β γ : Type} (f : β → γ) (st : St β) : St γ := ⟨st.best.map f, st.backup.map f⟩
 
-private theorem step_fst (cmp : α → α → Ordering) (content : α → κ) (st : St (α × Nat)) (c : α × Nat) :
-    stMap Prod.fst (step (fun x y => cmp x.1 y.1) (fun x => content x.1) st c)
-      = step cmp content (stMap Prod.fst st) c.1 := by
+private theorem step_map {β : Type} (f : β → α) (cmp : α → α → Ordering) (content : α → κ) (st : St β) (c : β) :
+    stMap f (step (fun x y => cmp (f x) (f y)) (fun x => content (f x)) st c)
+      = step cmp content (stMap f st) (f c) := by
   obtain ⟨best, backup⟩ := st
   cases best with
   | none => rfl
@@ -331,27 +463,28 @@ private theorem step_fst (cmp : α → α → Ordering) (content : α → κ) (s
     cases backup with
     | none =>
       simp only [step, stMap, Option.map]
-      by_cases h1 : cmp c.1 b.1 = .lt
+      by_cases h1 : cmp (f c) (f b) = .lt
       · simp [h1]
-      · by_cases h2 : content b.1 = content c.1 <;> simp [h1, h2]
+      · by_cases h2 : content (f b) = content (f c) <;> simp [h1, h2]
     | some k =>
       simp only [step, stMap, Option.map]
-      by_cases h1 : cmp c.1 b.1 = .lt
+      by_cases h1 : cmp (f c) (f b) = .lt
       · simp [h1]
-      · by_cases h3 : cmp c.1 k.1 = .lt <;> by_cases h2 : content b.1 = content c.1 <;> simp [h1, h2, h3]
+      · by_cases h3 : cmp (f c) (f k) = .lt <;> by_cases h2 : content (f b) = content (f c) <;> simp [h1, h2, h3]
 
-private theorem foldl_fst (cmp : α → α → Ordering) (content : α → κ) (m : List (α × Nat)) :
-    ∀ st, stMap Prod.fst (m.foldl (step (fun x y => cmp x.1 y.1) (fun x => content x.1)) st)
-      = (m.map Prod.fst).foldl (step cmp content) (stMap Prod.fst st) := by
+/-- the fold commutes with any map of the items through which the comparison and the content factor -/
+private theorem foldl_map {β : Type} (f : β → α) (cmp : α → α → Ordering) (content : α → κ) (m : List β) :
+    ∀ st, stMap f (m.foldl (step (fun x y => cmp (f x) (f y)) (fun x => content (f x))) st)
+      = (m.map f).foldl (step cmp content) (stMap f st) := by
   induction m with
   | nil => intro st; rfl
-  | cons c t ih => intro st; simp only [List.foldl_cons, List.map_cons, ih, step_fst]
+  | cons c t ih => intro st; simp only [List.foldl_cons, List.map_cons, ih, step_map]
 
 /-- `best_backup` returns exactly the two slots of the fold over the items, so
 every theorem above is a theorem about `best_backup`. -/
 theorem bestBackup_eq_run (cmp : α → α → Ordering) (content : α → κ) (l : List α) :
     bestBackup cmp content l = ((run cmp content l).best, (run cmp content l).backup) := by
-  have h := foldl_fst cmp content l.zipIdx ⟨none, none⟩
+  have h := foldl_map Prod.fst cmp content l.zipIdx ⟨none, none⟩
   rw [List.zipIdx_map_fst] at h
   simp only [bestBackup, bestBackupIdx, run]
   have h1 := congrArg St.best h
@@ -360,15 +493,15 @@ theorem bestBackup_eq_run (cmp : α → α → Ordering) (content : α → κ) (
   rw [← h1, ← h2]
 
 /-- "Positions agree with values": the indices `best_backup_position` returns
-are the places of the routes `best_backup` returns. -/
-theorem position_agrees {cmp : α → α → Ordering} {content : α → κ} (hw : WeakOrd cmp)
+are the places of the routes `best_backup` returns – for every comparison under
+which equal content is equal preference (no transitivity needed). -/
+theorem position_agrees {cmp : α → α → Ordering} {content : α → κ}
     (hc : RespectsContent cmp content) (l : List α) :
     (bestBackup cmp content l).1 = (bestBackupPosition cmp content l).1.bind (l[·]?) ∧
     (bestBackup cmp content l).2 = (bestBackupPosition cmp content l).2.bind (l[·]?) := by
-  have hw' : WeakOrd (fun (x y : α × Nat) => cmp x.1 y.1) := hw.pullback Prod.fst
   have hc' : RespectsContent (fun (x y : α × Nat) => cmp x.1 y.1) (fun x => content x.1) := fun a b e => hc a.1 b.1 e
-  have h := run_inv hw' hc' l.zipIdx
-  unfold Inv at h
+  have h := run_cinv hc' l.zipIdx
+  unfold CInv at h
   simp only [bestBackup, bestBackupPosition, bestBackupIdx]
   cases hb : (run (fun (x y : α × Nat) => cmp x.1 y.1) (fun x => content x.1) l.zipIdx).best with
   | none =>
@@ -376,7 +509,7 @@ theorem position_agrees {cmp : α → α → Ordering} {content : α → κ} (hw
     simp [h.2]
   | some b =>
     rw [hb] at h
-    obtain ⟨hbl, _, hk⟩ := h
+    obtain ⟨hbl, hk⟩ := h
     have eb := List.mem_zipIdx_iff_getElem?.1 hbl
     cases hkk : (run (fun (x y : α × Nat) => cmp x.1 y.1) (fun x => content x.1) l.zipIdx).backup with
     | none => simp [eb]
@@ -384,6 +517,44 @@ theorem position_agrees {cmp : α → α → Ordering} {content : α → κ} (hw
       rw [hkk] at hk
       have ek := List.mem_zipIdx_iff_getElem?.1 hk.1
       simp [eb, ek]
+
+/-! ## a weak order on the candidates suffices -/
+
+/-- The whole statement for a comparison that is a strict weak order ON THE
+CANDIDATES PRESENTED (the hypothesis speaks about members of `l` only): the form
+in which the statement is available for a comparison that is not transitive on
+all routes, such as `OrdRoute<Rfc4271>`. -/
+theorem best_backup_spec_on {cmp : α → α → Ordering} {content : α → κ} (l : List α)
+    (hw : WeakOrd (fun (x y : {x // x ∈ l}) => cmp x.1 y.1)) (hc : RespectsContent cmp content)
+    {b : α} (hb : (run cmp content l).best = some b) : Spec cmp content l b (run cmp content l).backup := by
+  have hc' : RespectsContent (fun (x y : {x // x ∈ l}) => cmp x.1 y.1) (fun x => content x.1) :=
+    fun a b e => hc a.1 b.1 e
+  have hm := foldl_map (Subtype.val : {x // x ∈ l} → α) cmp content l.attach ⟨none, none⟩
+  rw [List.attach_map_subtype_val] at hm
+  have h1 := congrArg St.best hm
+  have h2 := congrArg St.backup hm
+  simp only [stMap, Option.map_none] at h1 h2
+  change Option.map Subtype.val (run (fun (x y : {x // x ∈ l}) => cmp x.1 y.1) (fun x => content x.1) l.attach).best
+    = (run cmp content l).best at h1
+  change Option.map Subtype.val (run (fun (x y : {x // x ∈ l}) => cmp x.1 y.1) (fun x => content x.1) l.attach).backup
+    = (run cmp content l).backup at h2
+  cases hb' : (run (fun (x y : {x // x ∈ l}) => cmp x.1 y.1) (fun x => content x.1) l.attach).best with
+  | none => rw [hb', hb] at h1; cases h1
+  | some b' =>
+    have hs := best_backup_spec hw hc' l.attach hb'
+    rw [hb', hb] at h1
+    have ebb : b'.1 = b := by simpa using h1
+    subst ebb
+    rw [← h2]
+    obtain ⟨_, hmin, hk⟩ := hs
+    refine ⟨b'.2, fun c hcl => hmin ⟨c, hcl⟩ (List.mem_attach l _), ?_⟩
+    cases hk' : (run (fun (x y : {x // x ∈ l}) => cmp x.1 y.1) (fun x => content x.1) l.attach).backup with
+    | none =>
+      rw [hk'] at hk
+      exact fun c hcl => hk ⟨c, hcl⟩ (List.mem_attach l _)
+    | some k' =>
+      rw [hk'] at hk
+      exact ⟨k'.2, hk.2.1, fun c hcl hne => hk.2.2 ⟨c, hcl⟩ (List.mem_attach l _) hne⟩
 
 /-! ## the generic helper -/
 
@@ -556,7 +727,7 @@ theorem skipMed_best_backup (l : List CRoute) :
     | some b => Spec c routeContent l b (bestBackup c routeContent l).2 := by
   intro c
   rw [bestBackup_eq_run]
-  refine ⟨best_eq_single_best skipMed_weak_order l, ?_⟩
+  refine ⟨best_eq_single_best skipMed_weak_order.antisym l, ?_⟩
   cases hb : (run c routeContent l).best with
   | none => exact (best_none_iff skipMed_weak_order skipMed_respects l).1 hb
   | some b => exact best_backup_spec skipMed_weak_order skipMed_respects l hb
@@ -594,5 +765,96 @@ theorem rfc4271_cycle_no_best :
   · exact ⟨b, by simp, by decide⟩
   · exact ⟨c, by simp, by decide⟩
   · exact ⟨a, by simp, by decide⟩
+
+
+/-! ## the statement for a strategy, without hypotheses (known finding K11) -/
+
+/-- The statement of C11 for the `Ord` of `OrdRoute<s>`, for EVERY collection of
+constructed routes in every order, with no hypothesis about the order. -/
+def SelectionStatement (s : Strat) : Prop :=
+  ∀ l : List CRoute,
+    match (bestBackup (fun (a b : CRoute) => cmpP s a.1 b.1) routeContent l).1 with
+    | none => l = []
+    | some b => Spec (fun (a b : CRoute) => cmpP s a.1 b.1) routeContent l b
+        (bestBackup (fun (a b : CRoute) => cmpP s a.1 b.1) routeContent l).2
+
+/-- It holds for `OrdRoute<SkipMed>`. -/
+theorem skipMed_statement : SelectionStatement .skipMed := fun l => (skipMed_best_backup l).2
+
+/-- It does NOT hold for `OrdRoute<Rfc4271>` (known finding K11): on the 3-cycle
+A = (neighbour 10, MED 20, id 1), B = (neighbour 10, MED 10, id 3), C = (neighbour
+30, MED 0, id 2) whatever is selected has a candidate preferred over it. -/
+theorem rfc4271_statement_fails : ¬ SelectionStatement .rfc4271 := by
+  intro h
+  obtain ⟨l, hne, hcyc⟩ := rfc4271_cycle_no_best
+  have hl := h l
+  cases hb : (bestBackup (fun (a b : CRoute) => cmpP .rfc4271 a.1 b.1) routeContent l).1 with
+  | none => rw [hb] at hl; exact hne hl
+  | some b =>
+    rw [hb] at hl
+    obtain ⟨hbl, hmin, _⟩ := hl
+    obtain ⟨y, hy, hlt⟩ := hcyc b hbl
+    exact hmin y hy hlt
+
+private theorem rfc4271_antisym : Antisym (fun (a b : CRoute) => cmpP .rfc4271 a.1 b.1) := by
+  intro a b
+  have h := rfc4271_antisymm a b
+  rw [cmp_constructed _ b.2 a.2] at h
+  exact Outcome.ok.inj h
+
+private theorem rfc4271_respects : RespectsContent (fun (a b : CRoute) => cmpP .rfc4271 a.1 b.1) routeContent := by
+  intro a b e
+  have : a = b := Subtype.ext e
+  subst this
+  have h := rfc4271_antisym a a
+  cases hc : cmpP .rfc4271 a.1 a.1 <;> simp [hc, Ordering.swap] at h ⊢
+
+/-- What holds for `OrdRoute<Rfc4271>` on EVERY collection, cycles included (the
+clauses that need no transitivity): the best of `best_backup` is the route
+`best()` returns; nothing is selected only from an empty collection; best and
+backup are candidates; the backup is absent exactly when every candidate has the
+content of the best, otherwise its content differs from the best's. -/
+theorem rfc4271_unconditional (l : List CRoute) :
+    (bestBackup (fun (a b : CRoute) => cmpP .rfc4271 a.1 b.1) routeContent l).1
+      = best (fun (a b : CRoute) => cmpP .rfc4271 a.1 b.1) l ∧
+    match (bestBackup (fun (a b : CRoute) => cmpP .rfc4271 a.1 b.1) routeContent l).1 with
+    | none => l = []
+    | some b => ContentSpec routeContent l b
+        (bestBackup (fun (a b : CRoute) => cmpP .rfc4271 a.1 b.1) routeContent l).2 := by
+  rw [bestBackup_eq_run]
+  refine ⟨best_eq_single_best rfc4271_antisym l, ?_⟩
+  cases hb : (run (fun (a b : CRoute) => cmpP .rfc4271 a.1 b.1) routeContent l).best with
+  | none => exact (best_none_iff_any rfc4271_respects l).1 hb
+  | some b => exact content_clauses rfc4271_respects l hb
+
+/-- The provable part of the statement for `OrdRoute<Rfc4271>`: it holds for
+every collection ON WHICH the preference is a strict weak order (the exclusion
+is exactly the hypothesis; it fails on the cycle, `rfc4271_statement_fails`).
+Order independence of the backup's class is not proved for this strategy. -/
+theorem rfc4271_best_backup_partial (l : List CRoute)
+    (hw : WeakOrd (fun (x y : {x // x ∈ l}) => cmpP .rfc4271 x.1.1 y.1.1)) :
+    match (bestBackup (fun (a b : CRoute) => cmpP .rfc4271 a.1 b.1) routeContent l).1 with
+    | none => l = []
+    | some b => Spec (fun (a b : CRoute) => cmpP .rfc4271 a.1 b.1) routeContent l b
+        (bestBackup (fun (a b : CRoute) => cmpP .rfc4271 a.1 b.1) routeContent l).2 := by
+  rw [bestBackup_eq_run]
+  cases hb : (run (fun (a b : CRoute) => cmpP .rfc4271 a.1 b.1) routeContent l).best with
+  | none => exact (best_none_iff_any rfc4271_respects l).1 hb
+  | some b => exact best_backup_spec_on l hw rfc4271_respects hb
+
+/-- the hypothesis is satisfiable where the MED step decides: A and B of the
+cycle alone (same neighbour AS, B preferred by MED although its identifier is
+higher) are weakly ordered -/
+example : WeakOrd (fun (x y : {x // x ∈ ([⟨wit 10 20 1, by decide⟩, ⟨wit 10 10 3, by decide⟩] : List CRoute)}) =>
+    cmpP .rfc4271 x.1.1 y.1.1) where
+  swap x y := rfc4271_antisym x.1 y.1
+  lt_trans := by
+    rintro ⟨x, hx⟩ ⟨y, hy⟩ ⟨z, hz⟩
+    simp only [List.mem_cons, List.mem_nil_iff, or_false] at hx hy hz
+    rcases hx with rfl | rfl <;> rcases hy with rfl | rfl <;> rcases hz with rfl | rfl <;> (dsimp only; decide)
+  eq_trans := by
+    rintro ⟨x, hx⟩ ⟨y, hy⟩ ⟨z, hz⟩
+    simp only [List.mem_cons, List.mem_nil_iff, or_false] at hx hy hz
+    rcases hx with rfl | rfl <;> rcases hy with rfl | rfl <;> rcases hz with rfl | rfl <;> (dsimp only; decide)
 
 end Rc.Thm.C11
